@@ -621,6 +621,11 @@ class PredTr:
         if isinstance(e, ast.UnaryOp) and isinstance(e.op, ast.Not):
             return f"(!{self.expr(e.operand, bound)})"
         if isinstance(e, ast.BoolOp) and isinstance(e.op, ast.Or):
+            t = self._is_none_test(e.values[0])
+            if t is not None and t[1] and len(e.values) >= 2:      # `X is None or <rest, where X is not None>`
+                rest = e.values[1] if len(e.values) == 2 else ast.BoolOp(op=ast.Or(), values=e.values[1:])
+                inner = self.expr(rest, {**bound, t[0]: f"{t[0]}_v"})
+                return f"(match {self.opts[t[0]]} with | none => true | some {t[0]}_v => {inner})"
             return "(" + " || ".join(self.expr(v, bound) for v in e.values) + ")"
         if isinstance(e, ast.BoolOp) and isinstance(e.op, ast.And):
             first, rest = e.values[0], e.values[1:]
@@ -633,6 +638,9 @@ class PredTr:
         x = self._is_not_none(e)
         if x is not None:
             return f"{self.opts[x]}.isSome"
+        t = self._is_none_test(e)
+        if t is not None and t[1]:
+            return f"(!{self.opts[t[0]]}.isSome)"
         if isinstance(e, ast.Call) and not e.args and isinstance(e.func, ast.Attribute) and e.func.attr == "done" \
                 and isinstance(e.func.value, ast.Name):
             base = e.func.value.id
